@@ -184,6 +184,10 @@ EXPORT errno_t _mbsrtowcs_s_chk(size_t *restrict retvalp,
     orig_dest = dest;
     memcpy(&orig_ps, ps, sizeof(orig_ps));
 
+    /* never let libc store more than dmax wide characters */
+    if (dest && len > dmax) {
+        len = dmax;
+    }
     *retvalp = mbsrtowcs(dest, srcp, len, ps);
 
     if (likely(*retvalp < dmax)) {
